@@ -303,6 +303,34 @@ func inspected(toks []lexer.Token, llk *grammar.LLk, err error) []lexer.Token {
 	return toks[:k]
 }
 
+// semanticWitness renders the witness sentence toks (which takes alternative ai
+// of rule s) so that the semantic layer accepts it too where possible: the
+// minimal sentences select ?x from a pattern without bindings, which the hooks
+// reject, so the subject or the object of the first WHERE clause is turned
+// into the binding ?x when the sentence still takes the same alternative.
+func semanticWitness(rs []semantic.Symbol, s semantic.Symbol, ai int, toks []lexer.TokenType) string {
+	orig := render(toks)
+	for _, off := range []int{2, 4} {
+		v := append([]lexer.TokenType(nil), toks...)
+		done := false
+		for i := 0; i+off < len(v) && !done; i++ {
+			if v[i] == lexer.ItemWhere && v[i+1] == lexer.ItemLBracket && v[i+2] == lexer.ItemNode && v[i+3] == lexer.ItemPredicate &&
+				(off == 2 || v[i+4] == lexer.ItemLiteral) {
+				v[i+off] = lexer.ItemBinding
+				done = true
+			}
+		}
+		if !done {
+			continue
+		}
+		text := render(v)
+		if _, err := parseText(grammar.SemanticBQL(), text); err == nil && tryWitness(rs, s, ai, text) {
+			return text
+		}
+	}
+	return orig
+}
+
 // C18 (c''): no state between statements, systematically over the grammar: the
 // first statement is a witness sentence for alternative ALT of rule RULE (the
 // sentences C17 derives from the grammar tables, one per place where the rule
@@ -318,7 +346,7 @@ func HarnessC18NoStateWitness() {
 	if len(cands) == 0 {
 		return
 	}
-	text1 := render(cands[verif.Choice("cand", len(cands))])
+	text1 := semanticWitness(rs, s, ai, cands[verif.Choice("cand", len(cands))])
 	text2 := c18Corpus[verif.Choice("second", len(c18Corpus))]
 	shared, err := grammar.NewParser(grammar.SemanticBQL())
 	verif.Assume(err == nil)
@@ -347,6 +375,15 @@ func HarnessC18NoStateWitness() {
 	if verif.Param("SHOW", 0) == 1 {
 		verif.Observe("first", text1)
 		verif.Observe("second", text2)
+	}
+	if verif.Param("DBG", 0) == 1 {
+		verif.Class(fmt.Sprintf("%s/%d/%d", s, ai, len(cands)))
+		verif.Observe("first", text1)
+		if err1 != nil {
+			verif.Observe("err", err1.Error())
+		}
+		verif.Assert(err1 == nil, "dbg/first-accepted")
+		return
 	}
 	verif.Assert((err2 == nil) == (ferr == nil), "C18/nostate/same-verdict")
 	if err2 == nil && ferr == nil {
